@@ -184,6 +184,49 @@ class SetStateAuto(Contract):
     ensures = {"reaches-target-or-times-out": lambda s: Or(And(s.returned, SetState.ok(s)), s.raised(RuntimeError))}
 
 
+def mk_node_with_pdo_drive(w, from_state, periodic):
+    """controlword in an RPDO, statusword in a TPDO (no SDO objects for them: any SDO access would be a KeyError); the
+    cached statusword is the drive's current one (as after setup_402_state_machine and one reception)"""
+    drive = w.obj("env.drive402:Drive", state=DSTATES.index(from_state), auto=False, mode=0, supported=0)
+    sw0 = w.int("sw0", 0, 0xFFFF)
+    mask, val = cia402.SW_PATTERN[from_state]
+    w.assume(compare("==", binop("&", sw0, mask), val))
+    node = w.obj(NODE, id=1, tpdo_values=w.dict({0x6041: sw0}), tpdo_pointers=w.dict({}), rpdo_pointers=w.dict({}),
+                 sdo=w.dict({0x6041: w.obj("env.drive402:StatusVar", drive=drive)}))
+    link = w.obj("env.drive402:PdoLink", drive=drive, node=node, periodic=periodic, cw=0, cw_pending=False, sw=sw0)
+    tv = w.obj("env.drive402:TpdoVar", link=link, pdo_parent=w.obj("env.drive402:TpdoMap", link=link))
+    rv = w.obj("env.drive402:RpdoVar", link=link, pdo_parent=w.obj("env.drive402:RpdoMap", link=link))
+    w.setfield(node, "tpdo_pointers", w.dict({0x6041: tv}))
+    w.setfield(node, "rpdo_pointers", w.dict({0x6040: rv}))
+    w.pre.update(drive=drive, node=node, link=link)
+    return node, drive
+
+
+@contract
+class SetStatePdo(Contract):
+    """`node.state = target` with the controlword carried by an RPDO and the statusword by a TPDO (event-driven or
+    periodic; env/drive402.py PdoLink): terminates in the target state, operation never enabled on the way unless the
+    target asks for it, and the cached statusword ends up being the drive's"""
+    target = "canopen.profiles.p402:BaseNode402.state.setter"
+    id = "SetStatePdo"
+    functions = ("canopen.profiles.p402:BaseNode402._next_state", "canopen.profiles.p402:BaseNode402._change_state",
+                 "canopen.profiles.p402:BaseNode402.check_statusword", "canopen.profiles.p402:BaseNode402.statusword",
+                 "canopen.profiles.p402:BaseNode402.controlword.setter", "canopen.profiles.p402:BaseNode402.on_TPDOs_update_callback")
+    props = ("C19",)
+    cases = {"%s/%s" % (k, "periodic" if per else "event"): (v, per) for k, v in PAIRS.items()
+             if v[0] not in ("NOT READY TO SWITCH ON", "FAULT REACTION ACTIVE") for per in (False, True)}
+    max_paths = 600
+    frozen_time = True
+
+    def setup(self, w, case):
+        (frm, tgt), periodic = case
+        node, drive = mk_node_with_pdo_drive(w, frm, periodic)
+        w.pre.update(frm=frm, tgt=tgt)
+        return Call(("setattr", node, "state"), [tgt])
+
+    ensures = {"reaches-target-legally": lambda s: SetState.ok(s)}
+
+
 MODES = {m: m for m in cia402.MODE_CODE}
 
 
